@@ -31,6 +31,7 @@ type TourInfo struct {
 	Conc   map[string][]byte // model content token -> bytes
 	TZ     int
 	Obs    ObsSpec
+	Root   []M // the events that produce the model's initial state
 }
 
 // runModelCheck runs TLC on MC_<name>.cfg (StepOK + invariants). Returns states generated / distinct.
@@ -235,6 +236,28 @@ func tourJobs(cx *CheckCtx, name string, obs ObsSpec, maxEdges int) []Job {
 		b = append([]byte(fmt.Sprintf("%d:", i)), b...)
 		conc[fmt.Sprintf("c%d", i)] = b
 	}
+	// instance side file: fixed contents (e.g. .goitignore variants) and whether the initial state has an identity
+	withID := true
+	if b, err := os.ReadFile(filepath.Join(specDir(), "MC_"+name+".json")); err == nil {
+		var side struct {
+			WithID   *bool             `json:"withid"`
+			Contents map[string]string `json:"contents"`
+		}
+		if json.Unmarshal(b, &side) == nil {
+			for k, v := range side.Contents {
+				conc[k] = []byte(v)
+			}
+			if side.WithID != nil {
+				withID = *side.WithID
+			}
+		}
+	}
+	rootEvents := func() []M {
+		if withID {
+			return initEvents()
+		}
+		return initEvents()[:1]
+	}
 	// split: each second-level subtree is one job, so that the work spreads over the cores
 	type unit struct {
 		prefix []*tourNode
@@ -290,7 +313,7 @@ func tourJobs(cx *CheckCtx, name string, obs ObsSpec, maxEdges int) []Job {
 		}
 		us := units[i:j]
 		jobs = append(jobs, Job{Name: fmt.Sprintf("tour MC_%s [%d..%d)", name, i, j), Make: func(goit string, c *Chunk, rng *rand.Rand) {
-			c.Tour = &TourInfo{Parent: map[int]int{}, Event: map[int]M{}, Conc: conc, TZ: 540, Obs: obs}
+			c.Tour = &TourInfo{Parent: map[int]int{}, Event: map[int]M{}, Conc: conc, TZ: 540, Obs: obs, Root: rootEvents()}
 			for _, u := range us {
 				base, err := os.MkdirTemp(scratchBase(), "vtour")
 				if err != nil {
@@ -300,7 +323,7 @@ func tourJobs(cx *CheckCtx, name string, obs ObsSpec, maxEdges int) []Job {
 				r.TZ = 540
 				contents := map[string][]byte{}
 				// root state: init + identity (the model's Init)
-				for _, ev := range initEvents() {
+				for _, ev := range rootEvents() {
 					annotate(c.T, ev)
 					r.ApplyEnv(ev, contents)
 					a, _ := Argv(ev)
